@@ -100,6 +100,8 @@ def expmv(f, v, t=1., tol=1e-12, ncv=10, hermitian=False, normalize=False, retur
         lenV = len(V)
         V, H, happy = v.expand_krylov_space(f, tol, ncv, hermitian, V, H, **kwargs)
         info['krylov_steps'] += len(V) - lenV + happy
+        # f(v) may have blocks that are absent in v, so v.size can underestimate the dimension of the space
+        ncv_max = min(30, max([ncv_max] + [x.size for x in V]))
 
         if happy:
             tau = t_out - t_now
